@@ -42,6 +42,7 @@ structure DSt where
   maxT : Nat := 0              -- largest checkpoint id started while the model was not following
   untrusted : List Nat := []   -- checkpoints completed (or possibly completed) while not following: contents unknown
   kfCount : Nat := 0           -- tagged deviations so far in this case
+  echoJob : Bool := false      -- the job process was replaced while the model was not following
   suspect : Bool := false      -- the current deployment restored a checkpoint a live redeploy may have damaged on disk (D50)
   resyncs : Nat := 0
 
@@ -131,11 +132,13 @@ def ackExpected (d : DSt) : Bool :=
   | _ => false
 
 /-- A live redeploy reopens the surviving operators' databases in their directories from the restored checkpoint
-`ck`: the checkpoints those processes took after `ck` (complete, published or not) lose their entry in the rewritten
-`checkpoints` document and their WAL file names are used again (finding D50). Their contents on disk are no longer
+`ck`: the checkpoints those processes took before (complete, published or not, `ck` included) can lose their entry in
+the rewritten `checkpoints` document, and their WAL file names are used again (finding D50). Their contents on disk are no longer
 the model's: the model must not re-synchronise on them. -/
-def suspectsAtLive (d : DSt) (ck : Option Nat) : List Nat :=
-  ((d.s.published ++ d.s.writing).map (·.id)).filter fun id => match ck with | some c => id > c | none => true
+def suspectsAtLive (d : DSt) (_ck : Option Nat) : List Nat :=
+  -- the restored checkpoint itself is affected as well (witness: corpus/C01/d50-silent-state-loss-…: the checkpoint
+  -- the live operator reopened from later restores with a key's state missing)
+  (d.s.published ++ d.s.writing).map (·.id)
 
 /-- replay one event token; answer = the token the model agrees with -/
 def applyTok (d : DSt) (tok : String) : DSt × String :=
@@ -273,6 +276,14 @@ def d39Kind (tok : String) : Bool :=
   -- the job publishes later is no longer in that file, the next restore panics
   tok.startsWith "!deploy-panic:failed_to_find_indicated_checkpoint"
 
+/-- the checkpoint id in `!deploy-panic:failed_to_find_indicated_checkpoint_ID_<n>_in_…` -/
+def lostCheckpointId (tok : String) : Option Nat :=
+  if tok.startsWith "!deploy-panic:failed_to_find_indicated_checkpoint" then
+    match tok.splitOn "_ID_" with
+    | [_, rest] => ((rest.splitOn "_").headD "").toNat?
+    | _ => none
+  else none
+
 def firstDiff : List String → List String → Option String
   | a :: as, b :: bs => if a = b then firstDiff as bs else some a
   | a :: _, [] => some a
@@ -294,7 +305,8 @@ def echoTok (d : DSt) (tok : String) : DSt :=
       | some (d', _) => d'
       | none => d
     | none => { d with untrusted := natOr id :: d.untrusted }
-  | ["kj"] => { d with s := { d.s with writing := [] } }   -- the job process died: its publications in flight are gone
+  | ["kj"] =>   -- the job process died: its publications in flight are gone, the next job counts on from the newest published id
+    { d with s := { d.s with writing := [] }, echoJob := true, maxT := 0 }
   | ["L", _n, ck, _cs, _j] => { d with untrusted := suspectsAtLive d ck.toNat? ++ d.untrusted }
   | ["R", n, ck, cs, j] =>
     let mine := match newest d.s.published with
@@ -303,12 +315,12 @@ def echoTok (d : DSt) (tok : String) : DSt :=
     -- the implementation restores its newest published checkpoint; if that is the model's newest one, nothing of
     -- unknown contents has been published since
     if ck == mine && !(match ck.toNat? with | some c => d.untrusted.contains c | none => false) then
-      match act d (.restart (natOr n) (j == "j")) with
+      match act d (.restart (natOr n) (j == "j" || d.echoJob)) with
       | some (d', _) =>
         -- the same id must also be the same checkpoint (ids are used again after a job restart): the cursors agree
         if joinWith "." ((List.range d.nsplits).map fun sp => toString (d'.s.cursor sp)) != cs then d else
         let s' := if j == "j" then d'.s else { d'.s with nextId := max d'.s.nextId (d.maxT + 1) }
-        { d' with s := s', echo := false, ok := true, live := false, suspect := false, resyncs := d.resyncs + 1,
+        { d' with s := s', echoJob := false, echo := false, ok := true, live := false, suspect := false, resyncs := d.resyncs + 1,
                   untrusted := if j == "j" then [] else d.untrusted }
       | none => d
     else d
@@ -359,7 +371,10 @@ def step' (d : DSt) (ws : List String) : DSt × String :=
       ((echoLine { d with echo := true } toks []).1, joinWith " " toks)
     -- model of the code as it is after a live redeploy: whatever the implementation did; the spec side is the
     -- fresh-process model. Only the first deviation of a kind a stale loop can cause is the known finding.
-    else if (d'.live || d'.suspect) && line != joinWith " " toks && ((firstDiff toks out).map d39Kind).getD false then
+    else if (d'.live || d'.suspect ||
+          -- the restore itself fails on a checkpoint a live-redeployed operator may have damaged on disk (D50)
+          (match (firstDiff toks out).bind lostCheckpointId with | some c => d.untrusted.contains c | none => false))
+        && line != joinWith " " toks && ((firstDiff toks out).map d39Kind).getD false then
       -- the restore that no longer finds a checkpoint in the redeployed operator's own `checkpoints` document is
       -- finding D50 (a database reopened in its directory drops earlier entries) reached through the live redeploy
       let id := if (d'.suspect && !d'.live) ||
